@@ -80,12 +80,15 @@ def r2(ctx):
     ctx.check("DataSetSummary::update", len(sm) == 1 and render(sm[0][2][2][1]) == "next_value" and b.guard(sm[0][0]) == true,
               "sum += value for every value", got=[render(x[2]) for x in sm], key="sum")
     cm = [(bi, t, tm) for bi, t, tm in calls if tm[1] == W + "calculate_mean"]
-    st = [(bi, si, s) for bi, si, path, value, s in b.stores() if render(path) == "self.mean"]
+    st = [(bi, si, s, value) for bi, si, path, value, s in b.stores() if render(path) == "self.mean"]
     du = [(bi, t, tm) for bi, t, tm in calls if mir.short(tm[1]) == "Dispersion::update"]
     ok = len(cm) == 1 and len(st) == 1 and len(du) == 1 and len(cnt) == 1
     ctx.check("DataSetSummary::update", ok, "one mean computation, one mean store, one dispersion update", got=(len(cm), len(st), len(du)), key="shape")
     if not ok:
         return
+    ctx.check("DataSetSummary::update", st[0][2]["rv"] is not None and st[0][3] == cm[0][2] and b.guard(st[0][0]) == true and b.guard(du[0][0]) == true,
+              "the stored mean is exactly the result of calculate_mean (not rounded / adjusted), and mean and dispersion are updated for every value",
+              got=render(st[0][3])[:200], key="mean-stored-as-computed")
     ctx.check("DataSetSummary::update", [render(a) for a in cm[0][2][2]] == ["self.mean", "next_value", "self.count"] and
               b.dominates(cnt[0][0], cm[0][0]) and cnt[0][0] != cm[0][0],
               "new mean = calculate_mean(current mean, value, ALREADY incremented count)", got=render(cm[0][2]), key="mean-args")
@@ -134,6 +137,12 @@ def r3(ctx):
     ctx.check("Dispersion::update", ok, "M, variance and standard deviation are all stored", got=sorted(st), key="stores")
     if not ok:
         return
+    true = frozenset([frozenset()])
+    cond = {k: mir.render_guard(b.guard(x[0]))[:160] for k, x in (("M", m), ("variance", v), ("std_dev", sd)) if b.guard(x[0]) != true}
+    allst = [render(path) for bi, si, path, value, s in b.stores()]
+    ctx.check("Dispersion::update", not cond and sorted(allst) == ["self.recurrence_relation_m", "self.std_dev", "self.variance"],
+              "M, variance and standard deviation are each stored exactly once, for EVERY value (no early return / skipped update)",
+              got={"conditional": cond, "stores": sorted(allst)}, key="every-value")
     ctx.check("Dispersion::update", render(m[2]) == "welford_online::calculate_recurrence_relation_m(self.recurrence_relation_m, prev_mean, new_value, new_mean)",
               "M' = recurrence(own previous M, previous mean, value, new mean)", got=render(m[2]), key="m-args")
     ctx.check("Dispersion::update", render(v[2]) == "welford_online::calculate_population_variance(self.recurrence_relation_m, value_count)"
